@@ -1,5 +1,6 @@
 import Ebv.Driver.Io
 import Ebv.Model.GenFixed
+import Ebv.Model.FixedStore
 open Ebv Ebv.Io Ebv.Ebpf Ebv.Gen Ebv.GenFixed Lean
 /-! Line driver of the fixed-point layer.  `showInsn`, `showErr`, `showTree`, `parseView`, `parseFmt` are copies of
 the definitions in Drivers/C01.lean (a driver cannot be imported). -/
@@ -132,7 +133,47 @@ def sweep (lo hi step : Int) : String := Id.run do
     n := n + step
   return s!"{h} {bad}"
 
+/-! history of Python-side assignments / program runs / reads over several instances (`Ebv.FixedStore`) -/
+def parsePair (j : Json) : Option (Nat × Int) := do
+  match ← jArr j with
+  | [a, b] => pure (← jNat a, ← jInt b)
+  | _ => none
+
+def parsePairN (j : Json) : Option (Nat × Nat) := do
+  match ← jArr j with
+  | [a, b] => pure (← jNat a, ← jNat b)
+  | _ => none
+
+/-- (operation, what Python observes: nothing / the float read from an `x` variable / the integer read) -/
+def parseHOp (j : Json) : Option (FixedStore.Op × Nat) := do
+  match ← jArr j with
+  | [k, i, v, n] => if (← jStr k) == "set" then pure (.set (← jNat i) (← jNat v) (← jInt n), 0) else none
+  | [k, i, v] =>
+    let k ← jStr k
+    if k == "get" then pure (.get (← jNat i) (← jNat v), 1)
+    else if k == "geti" then pure (.get (← jNat i) (← jNat v), 2)
+    else if k == "write" then pure (.write (← jNat i) (← (← jArr v).mapM parsePair), 0)
+    else none
+  | _ => none
+
+def stepHist (ops decl : List Json) : Option String := do
+  let ops ← ops.mapM parseHOp
+  let decl ← decl.mapM parsePairN
+  let mut s : FixedStore.Store := fun _ _ => 0
+  let mut out : List String := []
+  for (op, k) in ops do
+    s := FixedStore.step s op
+    let seen := match op, k with
+      | .get i v, 1 => showDy (FixedStore.read s i v) ++ " "
+      | .get i v, 2 => toString (s i v) ++ " "
+      | _, _ => ""
+    out := out ++ [seen ++ ",".intercalate (decl.map fun (i, v) => toString (s i v))]
+  pure (" ; ".intercalate out)
+
 def step (j : Json) : Option String :=
+  match fArr j "mops", fArr j "decl" with
+  | some ops, some decl => stepHist ops decl
+  | _, _ =>
   match fArr j "cmp" with
   | some ab => stepCmp j ab
   | none =>
